@@ -100,6 +100,7 @@ def main():
         res["checks"] = {}
         for c in checks:
             env = dict(ENV, VERIF_REPO=wt, VERIF_SEED=a.seed)
+            env.update({k: v for k, v in os.environ.items() if k.startswith("VERIF_")and k not in ("VERIF_REPO", "VERIF_SEED")})
             rc, out = sh("./check %s --tier %s" % (c, a.tier), VERIF, timeout=6000, env=env)
             lines = [l for l in out.splitlines() if l.startswith("VIOLATION") or "INCONCLUSIVE" in l or ": OK tier" in l or l.startswith("KNOWN")]
             res["checks"][c] = dict(rc=rc, verdict=lines[:4], detail=[l for l in out.splitlines() if l.startswith("  clause=")][:3])
